@@ -4,6 +4,11 @@ import (
 	"strings"
 
 	z "github.com/Oudwins/zog"
+	"github.com/Oudwins/zog/conf"
+	"github.com/Oudwins/zog/i18n"
+	"github.com/Oudwins/zog/i18n/en"
+	"github.com/Oudwins/zog/i18n/es"
+	"github.com/Oudwins/zog/zconst"
 	"github.com/Oudwins/zog/parsers/zjson"
 	v "github.com/Oudwins/zog/zzverif"
 )
@@ -32,7 +37,7 @@ type c08Dest struct {
 }
 
 func C08_Jobs() []string {
-	return []string{"struct/parse", "struct/validate", "prims/parse", "prims/validate", "slice/parse", "collect", "derived", "json"}
+	return []string{"struct/parse", "struct/validate", "prims/parse", "prims/validate", "slice/parse", "collect", "derived", "json", "collect-orders", "i18n"}
 }
 func C08_Covers() []string { return []string{"ran"} }
 
@@ -165,6 +170,47 @@ func C08_Run(job string) {
 			z.Issues.CollectList(l)
 		})
 		v.Unfreeze()
+	case "collect-orders":
+		// SanitizeMapAndCollect / CollectMap on small issue maps, every iteration order of the map
+		// (the $first list aliases the issue stored under its path)
+		v.MapOrderChoice(true)
+		st := z.Struct(z.Schema{"name": z.String().Min(3)})
+		v.Freeze(st)
+		v.Concurrently(3, func(k int) {
+			var d struct{ Name string }
+			errs := st.Parse(map[string]any{"name": "ab"}, &d)
+			want := ""
+			if len(errs["name"]) == 1 {
+				want = errs["name"][0].Message
+			}
+			msgs := z.Issues.SanitizeMapAndCollect(errs)
+			if len(msgs) != 2 || len(msgs["$first"]) != 1 || msgs["$first"][0] != want || len(msgs["name"]) != 1 || msgs["name"][0] != want || want == "" {
+				v.Flag()
+			}
+		})
+		v.Unfreeze()
+	case "i18n":
+		// one installation of i18n serves calls in different languages
+		old := conf.IssueFormatter
+		i18n.SetLanguagesErrsMap(map[string]zconst.LangMap{"en": en.Map, "es": es.Map}, "en")
+		sc := z.String().Min(5)
+		wantEn := strings.ReplaceAll(en.Map["string"]["min"], "{{min}}", "5")
+		wantEs := strings.ReplaceAll(es.Map["string"]["min"], "{{min}}", "5")
+		v.Freeze(sc)
+		v.Concurrently(3, func(k int) {
+			var d string
+			lang := []string{"es", "en", "fr"}[k%3]
+			errs := sc.Parse("ab", &d, z.WithCtxValue("lang", lang))
+			want := wantEn
+			if lang == "es" {
+				want = wantEs
+			}
+			if len(errs) != 1 || errs[0].Message != want {
+				v.Flag()
+			}
+		})
+		v.Unfreeze()
+		conf.IssueFormatter = old
 	case "json":
 		// request documents through the JSON front end on shared schemas: undecodable, null and
 		// valid bodies, a struct root and a pointer root, issues collected afterwards
